@@ -133,7 +133,34 @@ func c06Case(c *run.Ctx, id string, seed uint64) run.Outcome {
 	if !scalarInt && (ctx == "switch-case" || ctx == "array-size" || ctx == "workgroup-size") {
 		ctx = c06Contexts[r.Intn(6)]
 	}
-	if floatRem && ctx != "module-const" && ctx != "const-assert" {
+	plain := true // literals, parentheses, negation, + - * / % and vector constructors of those only
+	wgen.WalkExpr(e, func(x wgen.Expr) {
+		switch y := x.(type) {
+		case *wgen.Lit, *wgen.Paren, *wgen.Materialize:
+		case *wgen.Unary:
+			if y.Op != "-" {
+				plain = false
+			}
+		case *wgen.Binary:
+			switch y.Op {
+			case "+", "-", "*", "/", "%":
+			default:
+				plain = false
+			}
+		case *wgen.Cons:
+			for _, a := range y.Args {
+				if a.T() == nil || !a.T().IsScalar() || a.T() != y.Ty.Scalar() {
+					plain = false
+				}
+			}
+		default:
+			plain = false
+		}
+	})
+	if floatRem && ctx == "runtime-form" {
+		ctx = c06Contexts[r.Intn(5)]
+	}
+	if floatRem && !plain && ctx != "module-const" && ctx != "const-assert" {
 		// only where the front end has to evaluate the tree: in a let / var initialiser / inline operand (and for a
 		// function-scope const, which naga inlines) folding is optional, and unfolded f32 % runs into F31 at run time
 		ctx = []string{"module-const", "const-assert"}[r.Intn(2)]
@@ -161,6 +188,17 @@ func c06Case(c *run.Ctx, id string, seed uint64) run.Outcome {
 		}
 	}
 	exprText := wgen.ExprString(p.m, e)
+	traits := ""
+	// trait for attribution (finding F149): an abstract-int sub-expression containing / or % that is converted to float
+	wgen.WalkExpr(e, func(x wgen.Expr) {
+		if m, ok := x.(*wgen.Materialize); ok && m.Ty != nil && m.Ty.Scalar() != nil && m.Ty.Scalar().IsFloat() && m.X.T() == wgen.AbsInt {
+			wgen.WalkExpr(m.X, func(y wgen.Expr) {
+				if b, ok := y.(*wgen.Binary); ok && (b.Op == "/" || b.Op == "%") {
+					traits = " traits=[abstract-int-divmod-under-float]"
+				}
+			})
+		}
+	})
 	wit := map[string]any{"expression": exprText, "type": t.String(), "context": ctx}
 	sigParts := map[string]int{"ctx:" + ctx: 1, "type:" + t.ShapeName(): 1}
 	for k := range ops {
@@ -284,7 +322,7 @@ func c06Case(c *run.Ctx, id string, seed uint64) run.Outcome {
 	src := wgen.Print(p.m).Src
 	wit["wgsl"] = src
 	viol := func(class, msg string) run.Outcome {
-		o := run.Outcome{V: run.Violated, Class: ctx + ":" + class, Reason: fmt.Sprintf("%s [%s] %s: %s", id, ctx, trunc(exprText, 120), msg), Witness: wit}
+		o := run.Outcome{V: run.Violated, Class: ctx + ":" + class, Reason: fmt.Sprintf("%s [%s] %s%s: %s", id, ctx, trunc(exprText, 120), traits, msg), Witness: wit}
 		if c.KnownMatch(o.Class, o.Reason) {
 			return run.Outcome{V: run.Held, Sig: "known:" + o.Class, Trivial: true, Cov: map[string]int{"known-finding-instances": 1}}
 		}
